@@ -17,6 +17,7 @@ OP_OWNER = {
     "wf": ["C10"], "callbacks": ["C10"],
     "sortadv": ["C03"],
     "ryu": ["C16"], "ryudec": ["C16"],
+    "like": ["C18"], "likefilter": ["C18"],
     "csvraw": ["C12"], "csvread": ["C12"],
     "csvfault": ["C15"], "csvreadfault": ["C15"],
 }
@@ -73,6 +74,16 @@ PROPS = {
             "sections": [dict(hist("hist", ["tojson", "tojson", "sort", "filter", "apply"], quick=250), cover_ops={"tojson"})],
             "rule": "cases = ToJSON of a derived frame; the bytes are parsed with the spec's RFC 8259 parser (validity) and every record must denote its row (ints exactly, floats parsing back to identical bits, "
                     "NaN/null as null, strings and names decoded with invalid bytes as U+FFFD); ReadJSON of the bytes must reproduce the frame where the property promises it"},
+    "C17": {"lean": ["QF.Props.C17"],
+            "sections": [dict({"section": "hist", "tag": "hist-enum", "opt": "enumheavy=1," + mix("filter", "sort", "distinct", "groupagg"), "quick": 200, "thorough": 2000}, cover_ops=None,
+                              owns=lambda m: True),
+                         dict({"section": "csvread", "tag": "csvread-enum", "quick": 200, "thorough": 2000, "cover_ops": {"CV"}}, owns=lambda m: m["op"] == "csvread")],
+            "rule": "cases = operations on frames with declared and derived enum columns (cardinalities 1,2,63..65,127..129,191..193,254..257,300; declared orders different from the alphabet) "
+                    "through New, ReadCSV and ReadJSON; every mismatch in such a history counts for this property"},
+    "C18": {"lean": ["QF.Props.C18"],
+            "sections": [{"section": "like", "quick": 1500, "thorough": 20000, "cover_ops": {"M", "ME"}}],
+            "rule": "cases = (pattern, case flag, cells) run through the real NewMatcher/Matches/ToUpper and through Filter on a string column and an enum column with the same cells; "
+                    "compared with the documented rule and the ToUpper mirror; unicode.ToUpper and regexp matching are oracle annotations from the Go standard library"},
     "C15": {"lean": ["QF.Props.C12"], "extra_ns": ["QF.Props.C12"],
             "sections": [dict(hist("hist", ["wfault"], quick=60, thorough=400), tag="hist-wfault", cover_ops=None, owns=lambda m: m["op"] == "wfault"),
                          {"section": "csvraw", "tag": "csvrawfaults", "opt": "faults=1", "quick": 60, "thorough": 600, "cover_ops": {"C"}},
@@ -94,6 +105,11 @@ def _lt(text, technique, note=""):
 
 
 LEVEL_TEXT = {
+    "C17": _lt("bitset_spec for the 256-bit value set behind in/like/ilike on enums; histories over declared and derived enum columns at and around the cardinality limit and the word boundaries of the bit set are compared with the spec (declared order for <,<=,>,>= and Sort, strict rejection of undeclared values and constants, clean failure beyond 255 values, null distinct from every value).",
+               "Lean 4 proof (bit set) + differential correspondence over enum-heavy histories and ReadCSV"),
+    "C18": _lt("toUpper_spec: the custom ToUpper equals encode(map up s) for every string, case mapping and buffer size (unconditional after the RuneSelf repair). Matcher choice and matching of the real code are compared with the documented rule; string and enum columns must select the same rows.",
+               "Lean 4 proof (ToUpper refinement) + differential correspondence",
+               "Regular-expression matching (Go regexp) and unicode.ToUpper are parameters supplied as oracle annotations."),
     "C13": _lt("ToCSV output of the real code is parsed by the spec's RFC 4180 scanner and must denote the frame; reading it back with ReadCSV must give the frame the property describes. The scanner side rests on the C12 theorems (schedule independence, escaped field read back as its content).",
                "Lean 4 proof (shared with C12) + semantic round-trip correspondence",
                "The writer (encoding/csv) is not modelled: its output is judged by what it denotes. A theorem scan(render(row)) = row for every quoting choice is an open goal."),
